@@ -119,6 +119,28 @@ def gen_sbounds(rng, T, n, kind=None):
   return out, kind
 
 
+def thin_large_sbounds(T, seed):
+  """In place: move some inequality slots of the aggregate bounds of every set in T to a LARGE magnitude with a band that is thin
+  relative to it (e.g. (262144, 262145.5)): open bands that a relative-tolerance comparison (np.isclose) mistakes for equalities.
+  The choice is deterministic in `seed`.  Only for checks that compare constraint TYPES AND VALUES (feasibility is not needed)."""
+  import random as _r
+  r2 = _r.Random(seed)
+
+  def walk(t):
+    if t['kind'] in ('set', 'subbal'):
+      if t.get('sbounds'):
+        sb = list(t['sbounds'])
+        for i, (lo, hi) in enumerate(sb):
+          if lo != hi and r2.random() < 0.6:
+            K = F(r2.choice([262144, -262144, 1048576]))
+            sb[i] = (K + lo, K + lo + r2.choice([F(1, 4), F(1), F(3, 2)]))
+        t['sbounds'] = sb
+      for k in t['kids']:
+        walk(k)
+  walk(T)
+  return T
+
+
 def gen_tree(rng, depth, n=None, **opt):
   """Random tree of the given maximal depth (0: a bare leaf or adaptor; >=1: the root is a set)."""
   n = n or pick(rng, opt.get('lengths', [1, 2, 3, 3, 4, 5]))
